@@ -75,6 +75,9 @@ func valTree(v Val) *gTree {
 
 func toNode(g *gTree) *newick.Node {
 	n := &newick.Node{Name: g.name, Distance: g.dist}
+	if len(g.kids) == 0 && len(g.name)%2 == 1 {
+		n.Children = []*newick.Node{} // empty, not nil: still "no children"
+	}
 	for _, k := range g.kids {
 		n.Children = append(n.Children, toNode(k))
 	}
@@ -389,8 +392,15 @@ var kNwName = register(&Kind{Name: "newick_name",
 
 // ---- traversals -------------------------------------------------------------
 
+// leafStyle: how a node without children is represented. Both are "no children"
+// (the Go documentation of Node says Children "may be nil"); the harness alternates.
+var leafStyle int
+
 func buildWithPaths(g *gTree, p []int, paths map[*newick.Node][]int) *newick.Node {
 	n := &newick.Node{Name: g.name, Distance: g.dist}
+	if len(g.kids) == 0 && leafStyle%2 == 1 {
+		n.Children = make([]*newick.Node, 0, len(p)%3) // empty but not nil, with or without spare capacity
+	}
 	paths[n] = append([]int(nil), p...)
 	for i, k := range g.kids {
 		n.Children = append(n.Children, buildWithPaths(k, append(p, i), paths))
@@ -420,6 +430,10 @@ func samePaths(n *newick.Node, p []int, paths map[*newick.Node][]int, count *int
 func traverseImpl(in Val, pre bool) Val {
 	g := valTree(in)
 	paths := map[*newick.Node][]int{}
+	leafStyle = g.size() // a function of the case, so that a replay builds the same tree
+	if pre {
+		leafStyle++
+	}
 	root := buildWithPaths(g, nil, paths)
 	it := root.PostOrder()
 	if pre {
